@@ -65,6 +65,48 @@ def m_state_mut(ex, st, callee, args, dest_ty, frame, depth):
     return [(st, Outcome("ret", ex.fresh(dest_ty, "state")))]
 
 
+def m_variable(ex, st, callee, args, dest_ty, frame, depth):
+    """RuntimeState::variable(&self, &ident) -> Option<&Value> (also variable_mut)"""
+    key = _key(ex, st, args[1])
+    cur = vars_lookup(ex, st, key)
+    out = []
+    for s2, vn in ex.case_split(st, cur, OPT_VAL):
+        if vn == "Some":
+            c = f"var{next(ex.counter)}"
+            s2.heap[c] = ex.enum_field(s2, cur, "Some", 0, VAL)
+            out.append((s2, Outcome("ret", ex.mk_enum(dest_ty, "Some", [Ref("&value::value::Value", c, ())]))))
+        else:
+            out.append((s2, Outcome("ret", Enum(dest_ty, bv64(0), {}))))
+    return out
+
+
+def m_option_eq(ex, st, callee, args, dest_ty, frame, depth):
+    """<Option<&Value> as PartialEq>::eq: structural on the Option, `Value == Value` is an uninterpreted relation
+    (reflexive): the solver explores both answers"""
+    def deref(x):
+        if isinstance(x, Ref) or (isinstance(x, Lazy) and is_ref(x.ty)):
+            c, p = ex.deref_target(st, x)
+            return ex.read(st, c, p)
+        return x
+    a, b = deref(args[0]), deref(args[1])
+    out = []
+    for s2, va in ex.case_split(st, a, "std::option::Option<&value::value::Value>"):
+        for s3, vb in ex.case_split(s2, b, "std::option::Option<&value::value::Value>"):
+            if va != vb:
+                out.append((s3, Outcome("ret", Prim("bool", z3.BoolVal(False)))))
+            elif va == "None":
+                out.append((s3, Outcome("ret", Prim("bool", z3.BoolVal(True)))))
+            else:
+                x = deref(ex.enum_field(s3, a, "Some", 0, "&value::value::Value"))
+                y = deref(ex.enum_field(s3, b, "Some", 0, "&value::value::Value"))
+                nx, ny = ex.val_name(s3, x), ex.val_name(s3, y)
+                if nx == ny:
+                    out.append((s3, Outcome("ret", Prim("bool", z3.BoolVal(True)))))
+                else:
+                    out.append((s3, Outcome("ret", Prim("bool", z3.Bool(f"value_eq({nx},{ny})")))))
+    return out
+
+
 class RunnerOracle:
     def __call__(self, ex, st, callee, args, dest_ty, frame, depth):
         n = len(st.trace)
@@ -87,6 +129,8 @@ RUNNER_ORACLES = [
     (re.compile(r"^(state::)?RuntimeState::insert_variable$"), m_insert_variable),
     (re.compile(r"^(state::)?RuntimeState::remove_variable$"), m_remove_variable),
     (re.compile(r"^context::Context::<'_>::state_mut$"), m_state_mut),
+    (re.compile(r"^(state::)?RuntimeState::variable(_mut)?$"), m_variable),
+    (re.compile(r"^<std::option::Option<&value::value::Value> as PartialEq>::eq$"), m_option_eq),
     (re.compile(r"^Runner::<'_, T>::ident$"), m_ident),
 ]
 
@@ -203,12 +247,18 @@ CALLS = {
 }
 
 
+BOUND = {  # literal that the closure parameters are bound to by the witness calls below
+    "run_key_value": ('"a"', "1"), "run_index_value": ("0", "1"), "map_key": ('"a"', None), "map_value": ("1", None)}
+
+
+def _tag(lit):
+    if lit.startswith('"'):
+        return {"Bytes": lit.strip('"')}
+    return {"Integer": lit}
+
+
 def runner_witness(role):
-    """role: 'C13:Runner::map_key:param0-restored:body-error' etc. -> (spec, expect) or None"""
-    parts = role.split(":")
-    prop = parts[0]
-    method = parts[3] if parts[2] == "" else parts[2]
-    # 'C13', 'Runner', '', 'map_key', tag...   (because of the '::' in 'Runner::map_key')
+    """role: 'C13:Runner::map_key:param0-restored:body-error' etc. -> list of (spec, expect) variants (tried in order)"""
     m = re.match(r"^(C\d+):Runner::(\w+):(.*)$", role)
     prop, method, tag = m.group(1), m.group(2), m.group(3)
     call, params, kind = CALLS[method]
@@ -226,12 +276,18 @@ def runner_witness(role):
             body = f"{{ .ran_body = true; {tail} }}"
         else:
             return None     # after an abort nothing can observe the variables
-        src = (f'p0 = "outer0"\np1 = "outer1"\n.r, .e = {call} -> {params} {body}\n' if shape == "error" else
-               f'p0 = "outer0"\np1 = "outer1"\n.r = {call} -> {params} {body}\n')
-        src += ".p0_after = p0\n.p1_after = p1\n"
-        exp = {"outcome": "ok", "event_has": ["ran_body"], "event_eq": {"p0_after": {"Bytes": "outer0"}, "p1_after": {"Bytes": "outer1"}}}
-        return {"source": src, "event": {"zero": 0, "yes": True}}, exp
-    if prop == "C06" and tag == "body-return-is-iteration-value":
+        variants = []
+        b0, b1 = BOUND[method]
+        for o0, o1 in (('"outer0"', '"outer1"'), (b0, b1 or '"outer1"')):
+            src = f"p0 = {o0}\np1 = {o1}\n"
+            src += (f".r, .e = {call} -> {params} {body}\n" if shape == "error" else f".r = {call} -> {params} {body}\n")
+            src += ".p0_after = p0\n.p1_after = p1\n"
+            exp = {"outcome": "ok", "event_has": ["ran_body"], "event_eq": {"p0_after": _tag(o0), "p1_after": _tag(o1)}}
+            variants.append(({"source": src, "event": {"zero": 0, "yes": True}}, exp))
+        # an outer variable that is unset must stay unset
+        src = (f".r, .e = {call} -> {params} {body}\n" if shape == "error" else f".r = {call} -> {params} {body}\n") + ".p0_after = p0\n"
+        return variants
+    if prop == "C06" and tag in ("body-return-is-iteration-value", "body-ok-is-iteration-value"):
         rv = '"ret"' if kind == "string" else "5"
         body = f"{{ .ran_body = true; if .yes == true {{ return {rv} }}; .after_in = true; {tail} }}"
         src = f".r = {call} -> {params} {body}\n.after = true\n"
@@ -240,11 +296,11 @@ def runner_witness(role):
             exp["event_eq"] = {"r": {"Object": {"a": {"Integer": "5"}}}}
         if method == "map_key":
             exp["event_eq"] = {"r": {"Object": {"ret": {"Integer": "1"}}}}
-        return {"source": src, "event": {"yes": True}}, exp
+        return [({"source": src, "event": {"yes": True}}, exp)]
     if prop == "C07" and tag == "body-abort-propagates":
         body = f"{{ .ran_body = true; if .yes == true {{ abort }}; {tail} }}"
         src = f".r = {call} -> {params} {body}\n.after = true\n"
-        return {"source": src, "event": {"yes": True}}, {"outcome": "abort", "event_has": ["ran_body"], "event_lacks": ["after"]}
+        return [({"source": src, "event": {"yes": True}}, {"outcome": "abort", "event_has": ["ran_body"], "event_lacks": ["after"]})]
     return None
 
 
